@@ -429,8 +429,13 @@ theorem C07_handler_never_ends_cleanly (cfg : Cfg) (n : Name) (as : List Attr) (
     (inv : Option Inv) (w : List Tok) : handleElem cfg n as rs1 prog ≠ .stop inv w .clean :=
   handleElem_never_clean cfg n as rs1 prog inv w
 
+/-- the peer's closing tag `</stream:stream>` or, on a session that uses the WebSocket
+subprotocol, its `<close/>` framing element (as `wsInput true` represents it) -/
+def PeerClose (t : Tok) : Prop :=
+  t = .stop ⟨nsStream, "stream"⟩ ∨ ∃ as, t = .start ⟨nsStream, wsCloseMark⟩ as
+
 theorem verdict_eof {d d' : Nat} {t : Tok} {rest : List Tok}
-    (h : verdict d t rest = (d', Rd.eof)) : t = .stop ⟨nsStream, "stream"⟩ := by
+    (h : verdict d t rest = (d', Rd.eof)) : PeerClose t := by
   cases t with
   | chars s =>
     simp only [verdict, Prod.mk.injEq] at h
@@ -439,8 +444,23 @@ theorem verdict_eof {d d' : Nat} {t : Tok} {rest : List Tok}
   | start n as =>
     simp only [verdict, Prod.mk.injEq] at h
     obtain ⟨_, h⟩ := h
-    repeat' split at h
-    all_goals cases h
+    by_cases h1 : (n.space != nsStream) = true
+    · rw [if_pos h1] at h; cases h
+    · rw [if_neg h1] at h
+      by_cases h2 : (n.loc == "error") = true
+      · rw [if_pos h2] at h
+        repeat' split at h
+        all_goals cases h
+      · rw [if_neg h2] at h
+        by_cases h3 : (n.loc == "stream") = true
+        · rw [if_pos h3] at h; cases h
+        · rw [if_neg h3] at h
+          by_cases h4 : (n.loc == wsCloseMark) = true
+          · refine Or.inr ⟨as, ?_⟩
+            simp only [bne_iff_ne, ne_eq, Decidable.not_not] at h1
+            simp only [beq_iff_eq] at h4
+            cases n; simp_all
+          · rw [if_neg h4] at h; cases h
   | stop n =>
     simp only [verdict, Prod.mk.injEq] at h
     obtain ⟨_, h⟩ := h
@@ -450,14 +470,14 @@ theorem verdict_eof {d d' : Nat} {t : Tok} {rest : List Tok}
       by_cases h2 : (n.loc == "stream") = true
       · simp only [bne_iff_ne, ne_eq, Decidable.not_not] at h1
         simp only [beq_iff_eq] at h2
-        cases n; simp_all
+        left; cases n; simp_all
       · rw [if_neg h2] at h; cases h
   | comment s => simp [verdict] at h
   | procInst a b => simp [verdict] at h
   | directive s => simp [verdict] at h
 
 theorem next_eof_is_close (s : RS) (hs : s.sticky = none) {s' : RS} (h : s.next = (.eof, s')) :
-    ∃ rest, s.inp = .stop ⟨nsStream, "stream"⟩ :: rest := by
+    ∃ t rest, s.inp = t :: rest ∧ PeerClose t := by
   unfold RS.next at h
   simp only [hs] at h
   cases hi : s.inp with
@@ -477,16 +497,17 @@ theorem next_eof_is_close (s : RS) (hs : s.sticky = none) {s' : RS} (h : s.next 
       | eof =>
         have h1 := verdict_tok hv
         have h2 := verdict_eof hv2
-        exact ⟨rest, by rw [← h1.1, h2]⟩
+        exact ⟨a, rest, rfl, by rw [← h1.1]; exact h2⟩
     | err e => simp at h
-    | eof => exact ⟨rest, by rw [verdict_eof hv]⟩
+    | eof => exact ⟨a, rest, rfl, verdict_eof hv⟩
 
 /-- **Serve returns nil only on the peer's closing tag**: a step ends the session without
-error only when the very next token of the input is `</stream:stream>`; no handler has run in
+error only when the very next token of the input is `</stream:stream>` (or, on a WebSocket
+session, the `<close/>` framing element); no handler has run in
 that step and nothing was written — never because of a handler's return value -/
 theorem C07_nil_only_on_peer_close (cfg : Cfg) (rs : RS) (prog : Prog) (inv : Option Inv) (w : List Tok)
     (h : handleInputStream cfg rs prog = .stop inv w .clean) :
-    inv = none ∧ w = [] ∧ ∃ rest, rs.inp = .stop ⟨nsStream, "stream"⟩ :: rest := by
+    inv = none ∧ w = [] ∧ ∃ t rest, rs.inp = t :: rest ∧ PeerClose t := by
   unfold handleInputStream at h
   generalize hn : ({ rs with dOut := 0, sticky := none } : RS).next = r at h
   obtain ⟨rd, rs1⟩ := r
@@ -775,6 +796,115 @@ example : (serveW { ns := nsClient, localBare := "me@example.com", jidCanon := f
   (serveW { ns := nsClient, localBare := "me@example.com", jidCanon := fun s => some s } 0
     [.start ⟨nsClient, "iq"⟩ [attr "type" "get", attr "id" "a1"], .stop ⟨nsClient, "iq"⟩,
      .start ⟨nsClient, "message"⟩ [], .stop ⟨nsClient, "message"⟩, .stop ⟨nsStream, "stream"⟩] []).invs.length = 1 := by
+  decide
+
+/-! ### Round E -/
+
+/-- **`Serve(nil)`**: the session's own handler reads nothing, writes nothing and returns nil, so
+a get/set IQ whose sender is absent or parses is answered by exactly one automatic error,
+addressed to the sender — the step writes `defaultReply id to` and nothing else; anything that is
+not such a request gets nothing -/
+theorem C07_nil_handler (cfg : Cfg) (n : Name) (as : List Attr) (rs1 : RS)
+    (inv : Option Inv) (written : List Tok) (rs' : RS)
+    (h : handleElem cfg n as rs1 nilHandlerProg = .next inv written rs') :
+    (isIq n = true → isRequestTyp (getTyp (blankFrom cfg n as)) = true →
+      ∃ to, replyTo cfg (blankFrom cfg n as) = some to ∧
+        written = defaultReply (getId (blankFrom cfg n as)) to) ∧
+    (¬ (isIq n = true ∧ isRequestTyp (getTyp (blankFrom cfg n as)) = true) → written = []) := by
+  obtain ⟨d, hd, hw⟩ := C07_written cfg n as rs1 nilHandlerProg inv written rs' h
+  have hops : writesOf nilHandlerProg.ops = [] := rfl
+  rw [hops] at hd hw
+  have hwr : (WS.init.encAll (getId (blankFrom cfg n as)) []).wrote = false := rfl
+  rw [hwr] at hd
+  simp only [List.nil_append] at hw
+  constructor
+  · intro hiq hty
+    simp only [autoReply, hiq, hty, Bool.and_self, Bool.not_false, if_true] at hd
+    cases hr : replyTo cfg (blankFrom cfg n as) with
+    | none => simp [hr] at hd
+    | some to =>
+      simp only [hr, Option.map_some, Option.some.injEq] at hd
+      exact ⟨to, rfl, by rw [hw, ← hd]⟩
+  · intro hno
+    have : (isIq n && isRequestTyp (getTyp (blankFrom cfg n as)) && !false) = false := by
+      cases h1 : isIq n <;> cases h2 : isRequestTyp (getTyp (blankFrom cfg n as)) <;> simp_all
+    simp only [autoReply, this, Bool.false_eq_true, if_false, Option.some.injEq] at hd
+    rw [hw, ← hd]
+
+/-- **a multiplexer with handlers for some requests only**: a request the registrations do not
+cover (another payload, another type) is handled exactly as by a multiplexer with nothing
+registered — the fallback answers it exactly once (`C07_mux_fallback_once`), a result / error is
+never answered (`C07_mux_reply_never_answered`) -/
+theorem C07_mux_partial_registration (r : MuxReg) (cfg : Cfg) (n : Name) (as : List Attr) (body : List Tok) (p : Prog)
+    (h : r.has (getTyp as) (firstPayload body) = false) :
+    muxEffectiveG r cfg n as body p = muxEffective false cfg n as body p := by
+  simp [muxEffectiveG, h]
+
+/-- … and a request they do cover runs the registered handler's program -/
+theorem C07_mux_registered (r : MuxReg) (cfg : Cfg) (n : Name) (as : List Attr) (body : List Tok) (p : Prog)
+    (h : r.has (getTyp as) (firstPayload body) = true) :
+    muxEffectiveG r cfg n as body p = muxEffective true cfg n as body p := by
+  simp [muxEffectiveG, h]
+
+example : (MuxReg.mk ["get", "set"] (some ⟨"urn:q", "q"⟩)).has "get" (.elem ⟨"urn:xmpp:ping", "ping"⟩) = false ∧
+    (MuxReg.mk ["get", "set"] (some ⟨"urn:q", "q"⟩)).has "set" (.elem ⟨"urn:q", "q"⟩) = true ∧
+    (MuxReg.mk ["get"] none).has "set" (.elem ⟨"urn:q", "q"⟩) = false ∧
+    (MuxReg.mk ["get"] none).has "get" .none = true := by decide
+
+/-- **a request that cannot be answered terminates the stream**: when the output cannot take a
+reply any more — the local side closed it, or an earlier transmission was abandoned inside an
+element — a get/set IQ whose handler returns nil ends the session with an error in that very
+step, *whatever the handler tried to write* (a reply that is refused is not a reply): nothing
+after the request is served and `Serve` does not return nil -/
+theorem C07_unanswerable_request_terminates (cfg : Cfg) (st : OutSt) (n : Name) (as : List Attr) (rs1 : RS)
+    (prog : Prog) (hst : st ≠ .opn) (hiq : isIq n = true)
+    (hty : isRequestTyp (getTyp (blankFrom cfg n as)) = true) (hret : prog.ret = .ok) :
+    ∃ inv e, handleElemC cfg st n as rs1 prog = .stop inv [] (.error e) := by
+  unfold handleElemC
+  simp only
+  have h1 : ((if prog.close = true then OutSt.closed else st) == OutSt.opn) = false := by
+    by_cases hc : prog.close = true
+    · simp [hc]
+    · cases st <;> simp_all
+  rw [if_neg (by simp [h1])]
+  simp only [hret, hiq, hty, Bool.and_self, Bool.true_and]
+  repeat' split
+  all_goals first | exact ⟨_, _, rfl⟩ | simp_all
+
+/-- **a handler that leaves an element open terminates the stream** (review A, finding 3): with
+the output open, a handler that returns nil after writes that leave an element open — or contain
+an end tag nothing was open for — ends the session with the output-broken error in that step;
+no automatic reply is nested into the unfinished element and nothing after it is served -/
+theorem C07_handler_left_element_open_terminates (cfg : Cfg) (n : Name) (as : List Attr) (rs1 : RS)
+    (prog : Prog) (hc : prog.close = false) (hret : prog.ret = .ok)
+    (hb : leavesBroken (writesOf prog.ops) = true) :
+    ∃ inv, handleElemC cfg .opn n as rs1 prog
+      = .stop inv (encWire 0 (writesOf prog.ops)).2.2 (.error .outputBroken) := by
+  unfold handleElemC
+  simp [hc, hret, hb]
+
+example : leavesBroken [Tok.start ⟨"", "message"⟩ []] = true ∧
+    leavesBroken [Tok.stop ⟨"", "x"⟩] = true ∧
+    leavesBroken [Tok.start ⟨"", "iq"⟩ [attr "type" "result"], .stop ⟨"", "iq"⟩] = false := by decide
+
+/-- one step answers request `id` (exactly one top-level reply among what it wrote) or ends the
+session with an error -/
+def answeredOrTerminated (id : String) : Step → Bool
+  | .next _ w _ => (topReplies id w).length == 1
+  | .stop _ _ r => r != .clean
+
+/-- the full-strength statement "for every handler that returns nil the request is answered or
+the stream terminated" does **not** hold for the plain machine `handleElem` (output open, no
+check of what the handler left behind): it nests the automatic reply into the unfinished element
+and goes on — which is why `handleElemC` (and, since round E, session.go) ends the session there -/
+theorem C07_plain_machine_nests_reply_fails :
+    ¬ ∀ (prog : Prog), prog.ret = .ok →
+      answeredOrTerminated "b1" (handleElem { ns := nsClient, localBare := "me@example.com", jidCanon := fun s => some s }
+          ⟨nsClient, "iq"⟩ [attr "type" "get", attr "id" "b1"]
+          (RS.init [.stop ⟨nsClient, "iq"⟩, .stop ⟨nsStream, "stream"⟩]) prog) = true := by
+  intro h
+  have := h { ops := [.write [.start ⟨"", "message"⟩ []]], ret := .ok } rfl
+  revert this
   decide
 
 end XmppModel.Props.C07
